@@ -326,7 +326,32 @@ def local_name(root, env, at=None):
     return "$local"  # any other local: its name is not wire-visible (renaming it, or inlining the helper that owns it, changes nothing)
 
 
-def shape_with_env(e, env, at=None):
+def _single_def_of(env, vid):
+    d = getattr(env, "_single_defs", None)
+    if d is None:
+        d = {}
+        body = env.fn.get("body") or {}
+        assigned = set()
+        for n in walk(body):
+            t = n["l"] if n["k"] == "Assign" else (n["e"] if n["k"] == "Unary" and n["op"] in ("++", "--") else None)
+            if is_node(t) and t["k"] == "Ref":
+                assigned.add(t.get("id"))
+            if n["k"] == "OpCall" and n.get("op") in ("=", "+=", "-=", "++", "--") and n.get("args") and is_node(n["args"][0]) and n["args"][0]["k"] == "Ref":
+                assigned.add(n["args"][0].get("id"))
+            for i_ in (n.get("refargs") or []) if n["k"] in ("Call", "OpCall", "Construct") else []:
+                a = n["args"][i_] if i_ < len(n.get("args") or []) else None
+                if is_node(a) and a["k"] == "Ref":
+                    assigned.add(a.get("id"))
+        for n in walk(body):
+            if n["k"] == "Decl":
+                for v in n.get("vars", []):
+                    if is_node(v.get("init")) and v["id"] not in assigned and v["init"]["k"] not in ("Lambda", "InitList"):
+                        d[v["id"]] = v["init"]
+        env._single_defs = d
+    return d.get(vid)
+
+
+def shape_with_env(e, env, at=None, _depth=0):
     """render a length expression with proxies/aliases resolved to member paths"""
     if not is_node(e):
         return str(e)
@@ -337,19 +362,26 @@ def shape_with_env(e, env, at=None):
         p = env.path(e)
         if p is not None:
             if p[0][0] == "$v":
-                return local_name(p[0], env, at) + "".join("." + c if not c.startswith("[") else c for c in p[1:])
+                nm = local_name(p[0], env, at)
+                if nm == "$local" and len(p) == 1 and _depth < 4:
+                    # a local that is defined once and was not itself streamed stands for its initialiser: naming a sub-expression
+                    # (`std::string nameStr = header.GetStringById(...); if (!nameStr.empty())`) changes nothing
+                    init = _single_def_of(env, p[0][1])
+                    if init is not None:
+                        return shape_with_env(init, env, at, _depth + 1)
+                return nm + "".join("." + c if not c.startswith("[") else c for c in p[1:])
             return render(p)
         return show(e)
     if k == "Binary":
-        return "(%s %s %s)" % (shape_with_env(e["l"], env, at), e["op"], shape_with_env(e["r"], env, at))
-    if k == "Cast":
-        return shape_with_env(e["e"], env, at)
+        return "(%s %s %s)" % (shape_with_env(e["l"], env, at, _depth), e["op"], shape_with_env(e["r"], env, at, _depth))
+    if k in ("Cast",) or (k == "Construct" and len(e.get("args", [])) == 1 and e.get("copy")):
+        return shape_with_env(e["e"] if k == "Cast" else e["args"][0], env, at, _depth)
     if k == "Sizeof":
         return str(e.get("val"))
     if k == "Call":
         r = e.get("recv")
-        return "%s.%s(%s)" % (shape_with_env(r, env, at) if is_node(r) else "", e.get("short"),
-                              ",".join(shape_with_env(a, env, at) for a in e.get("args", [])))
+        return "%s.%s(%s)" % (shape_with_env(r, env, at, _depth) if is_node(r) else "", e.get("short"),
+                              ",".join(shape_with_env(a, env, at, _depth) for a in e.get("args", [])))
     return show(e)
 
 
@@ -383,6 +415,27 @@ def _bool_local_defs(env):
     return d
 
 
+def _lambda_predicate(env, vid):
+    """the expression a parameterless local lambda returns (single `return e;` body), else None"""
+    m = getattr(env, "_lambda_preds", None)
+    if m is None:
+        m = {}
+        for n in walk(env.fn.get("body") or {}):
+            if n["k"] == "Decl":
+                for v in n.get("vars", []):
+                    i = v.get("init")
+                    while is_node(i) and i["k"] in ("Cast", "Construct") and (i.get("e") is not None or len(i.get("args", [])) == 1):
+                        i = i["e"] if i.get("e") is not None else i["args"][0]
+                    if is_node(i) and i["k"] == "Lambda" and i.get("fid") in env.F.fns:
+                        g = env.F.fns[i["fid"]]
+                        b = g.get("body")
+                        if not g.get("params") and is_node(b) and b["k"] == "Compound" and len(b.get("body", [])) == 1 and \
+                                b["body"][0]["k"] == "Return" and is_node(b["body"][0].get("e")):
+                            m[v["id"]] = b["body"][0]["e"]
+        env._lambda_preds = m
+    return m.get(vid)
+
+
 def _facts_to_triples(facts_, env):
     return flow.normalize_guards((f[1], f[2], _local_guard(f, env)) for f in facts_ if f[0] == "G")
 
@@ -405,6 +458,15 @@ def _canon_guards(g, env, at, depth=0):
             if e["k"] == "Unary":
                 neg = not neg
             e = e["e"]
+        if depth < 4 and is_node(e) and e["k"] == "OpCall" and e.get("op") == "()" and len(e.get("args", [])) == 1 and \
+                is_node(e["args"][0]) and e["args"][0]["k"] == "Ref":
+            # a predicate kept in a local lambda without parameters (`const auto named = [&] { return !name.empty(); };`) is what
+            # it returns
+            ret = _lambda_predicate(env, e["args"][0].get("id"))
+            if ret is not None:
+                sub = flow._mark_version(flow.implied(ret, pol != neg))
+                out.extend(_canon_guards(_facts_to_triples(sub, env), env, at, depth + 1))
+                continue
         if depth < 4 and is_node(e) and e["k"] == "Ref" and e.get("rk") == "local" and e.get("id") in defs:
             sub = flow.implied(defs[e["id"]], pol != neg)
             sub = flow._mark_version(sub)
